@@ -242,6 +242,33 @@ def split_scripts(text):
 def script_name(block):
     return block.split("\n", 1)[0][4:].split()[0]
 
+def extraction_selftest(pfx):
+    """(cases equal, cases different, text of the first difference) or None when there is no sample."""
+    vf, ef = pfx + ".v", pfx + ".expected"
+    if not (os.path.exists(vf) and os.path.exists(ef)) or os.path.getsize(vf) == 0:
+        return None
+    exp = [l.split() for l in open(ef).read().strip().split("\n") if l.strip()]
+    # the sample is compiled under a module name of its own (coqc wants a valid identifier)
+    d = os.path.dirname(vf)
+    mod = os.path.join(d, "selftest_" + re.sub(r"\W", "_", os.path.basename(pfx)) + ".v")
+    shutil.copy(vf, mod)
+    rc, out = sh(["coqc", "-noglob", "-Q", os.path.join(COQ, "theories"), "HB", mod], cwd=d, timeout=600)
+    if rc != 0:
+        return (0, len(exp), "coqc failed on the sampled steps: " + out[-300:].replace("\n", " "))
+    got = [re.sub(r"[\s()%Z]", "", g).split(";") if g.strip() else [] for g in re.findall(r"=\s*\[(.*?)\]\s*:\s*list Z", out, re.S)]
+    ok = bad = 0
+    first = ""
+    for i in range(max(len(exp), len(got))):
+        e = exp[i] if i < len(exp) else None
+        g = got[i] if i < len(got) else None
+        if e is not None and g is not None and e == g:
+            ok += 1
+        else:
+            bad += 1
+            if not first:
+                first = f"case {i}: ocaml {(' '.join(e) if e else '-')[:160]} coq {(' '.join(g) if g else '-')[:160]}"
+    return (ok, bad, first)
+
 def run_scripts(exe, driver, scripts_text, wdir, tag, levels="ABC"):
     """Runs a batch of scripts in NPROC shards.  Returns findings, stats, ops, branch, crash findings."""
     blocks = split_scripts(scripts_text)
@@ -265,9 +292,13 @@ def run_scripts(exe, driver, scripts_text, wdir, tag, levels="ABC"):
         if rc != 0:
             crashed.append((sp, tp, rc, err.decode("utf-8", "replace")[-300:]))
     dprocs = []
-    for sp, tp, _ in procs:
+    st_pfx = os.path.join(wdir, f"{tag}_selftest")
+    for k, (sp, tp, _) in enumerate(procs):
+        env = dict(os.environ)
+        # extraction self-test: the first shard also writes a sample of the steps it judged as Coq terms
+        env["HV_SELFTEST"] = st_pfx if (k == 0 and "C" in levels) else ""
         dprocs.append((sp, tp, subprocess.Popen(f"ulimit -s unlimited 2>/dev/null; ulimit -v 6000000; exec {driver} {tp} {levels}", shell=True,
-                                                stdout=subprocess.PIPE, stderr=subprocess.STDOUT)))
+                                                stdout=subprocess.PIPE, stderr=subprocess.STDOUT, env=env)))
     for sp, tp, p in dprocs:
         try:
             out, _ = p.communicate(timeout=1800)
@@ -281,6 +312,15 @@ def run_scripts(exe, driver, scripts_text, wdir, tag, levels="ABC"):
         for d, src in ((stats, s), (ops, o), (branch, b)):
             for k, v in src.items():
                 d[k] = d.get(k, 0) + v
+    # extraction self-test: evaluate the sampled steps inside Coq (vm_compute) and compare with the
+    # digests the extracted OCaml code computed for the same arguments
+    st = extraction_selftest(st_pfx)
+    if st is not None:
+        n_ok, n_bad, first_bad = st
+        stats["selftest_cases"] = stats.get("selftest_cases", 0) + n_ok + n_bad
+        stats["selftest_mismatches"] = stats.get("selftest_mismatches", 0) + n_bad
+        if n_bad:
+            findings.append(Finding("X-MISMATCH", f"extraction self-test: {n_bad} of {n_ok + n_bad} sampled steps evaluate differently inside Coq (vm_compute) and in the extracted OCaml code; first: {first_bad}", None))
     # a crashed harness process: find the script it died in (last SCRIPT line of its trace)
     for sp, tp, rc, err in crashed:
         last, laststep = None, None
